@@ -370,7 +370,50 @@ def drive(case):
   return {'evals': 1, 'nontrivial': not leaf.any(), 'outcome': a.round(5).tolist()}
 
 
-SUBS = {'quantize_grid': quantize_grid, 'quantize_special': quantize_special, 'aggregator_rounds': aggregator_rounds,
+def extreme_draws(case):
+  """Boundary answers of the uniform RNG (0, the smallest positive float32, 1/2, the largest float32 below 1) for
+  small and very large level counts: support, bounds, on-grid fixpoints must hold for every one of them."""
+  import jax
+  import jax.numpy as jnp
+  from fedjax.aggregators import compression as comp
+  levels, lo, hi = case['levels'], case['lo'], case['hi']
+  step = (hi - lo) / (levels - 1)
+  idx = sorted({0, 1, (levels - 1) // 3, (levels - 1) // 2, levels - 2, levels - 1})
+  on_grid = np.asarray([lo + i * step for i in idx], np.float64)
+  generic = np.asarray([lo, lo + 0.3 * (hi - lo), lo + 0.77 * (hi - lo), hi], np.float64)
+  draws = [0.0, float(np.nextafter(np.float32(0), np.float32(1))), 0.5, float(np.nextafter(np.float32(1), np.float32(0)))]
+  evals = 0
+  for name, v in (('on_grid', on_grid), ('generic', generic), ('min_max_only', np.asarray([lo, hi, hi, lo], np.float64))):
+    v32 = np.asarray(v, np.float32)
+    for u in draws:
+      nc = dict(case, vec=name, draw=u)
+
+      def const_uniform(key, shape=(), dtype=None, minval=0., maxval=1., u=u):
+        return jnp.full(shape, u, jnp.float32)
+      with seams.patched(jax.random, uniform=const_uniform):
+        out = np.asarray(comp.uniform_stochastic_quantize(jnp.asarray(v32), levels, jax.random.PRNGKey(0)), np.float64)
+        if levels == 2:
+          outb = np.asarray(comp.binary_stochastic_quantize(jnp.asarray(v32), jax.random.PRNGKey(0)), np.float64)
+          _levels_check(outb[None], np.asarray(v32, np.float64), 2, 'binary (draw %r)' % u, nc)
+      v64 = np.asarray(v32, np.float64)
+      span = v64.max() - v64.min()
+      tol = 4e-7 * max(abs(v64.max()), abs(v64.min()), span)  # a few float32 ulps of the magnitudes involved
+      require(bool(np.all(np.isfinite(out))), 'uniform: non-finite output', case=nc)
+      require(bool(np.all(out >= v64.min() - tol) and np.all(out <= v64.max() + tol)), 'uniform: output outside [min, max] '
+              'for draw %r with %d levels' % (u, levels), [v64.min(), v64.max()], out.tolist(), case=nc)
+      st = span / (levels - 1)
+      require(bool(np.all(np.abs(out - v64) <= st + tol)), 'uniform: error larger than one grid step for draw %r' % u,
+              v64.tolist(), out.tolist(), case=nc)
+      # exactly representable grid points only: min/max always are; interior points only for few levels on dyadic ranges
+      exact_grid = name == 'min_max_only' or (name == 'on_grid' and levels <= 5 and (lo, hi) != (1.0, 1.0 + 2 ** -6))
+      if exact_grid:
+        require(bool(np.all(np.abs(out - v64) <= tol)), 'uniform: a value already on the grid was moved for draw %r with %d '
+                'levels' % (u, levels), v64.tolist(), out.tolist(), case=nc)
+      evals += 1
+  return {'evals': evals, 'nontrivial': levels > 5, 'outcome': [levels, lo, hi]}
+
+
+SUBS = {'extreme_draws': extreme_draws, 'quantize_grid': quantize_grid, 'quantize_special': quantize_special, 'aggregator_rounds': aggregator_rounds,
         'drive': drive}
 TIMEOUTS = {k: 1500 for k in SUBS}
 
@@ -405,5 +448,10 @@ def plan(ctx):
           ac.append({'agg': a, 'tree': kind, 'weights': list(w), 'rounds': 3, 'seed': ctx.seed})
     ac.append({'agg': a, 'tree': 'vec', 'weights': [1.0, 1.0], 'rounds': 2, 'seed': ctx.seed, 'zero_leaf': True})
   ctx.pmap('aggregator_rounds', ac, chunk=6)
+  ctx.run('extreme_draws', [{'levels': lv, 'lo': lo, 'hi': hi} for lv in (2, 3, 5, 256, 2 ** 12, 2 ** 16, 2 ** 20)
+                            for lo, hi in ((0.0, 1.0), (-3.0, 5.0), (1.0, 1.0 + 2 ** -6))])
+  # more clients in one round than any plausible key batch
+  ctx.pmap('aggregator_rounds', [{'agg': a, 'tree': 'vec', 'weights': [1.0] * 70, 'rounds': 2, 'seed': ctx.seed}
+                                 for a in ('uniform', 'rotated', 'drive', 'terngrad')], chunk=1)
   ctx.run('drive', [{'leaf': l} for l in ([0.0, 0.0, 0.0, 0.0], [1.0, -2.0, 0.0, 4.0], [0.0], [3.0], [1e-20, -1e-20],
                                            [1e19, 1e19])])
